@@ -33,6 +33,7 @@ type Result struct {
 	Log        []string       `json:"log,omitempty"`
 	Out        map[string]any `json:"out,omitempty"`
 
+	Batch   string `json:"batch,omitempty"`
 	Crashed bool   `json:"crashed,omitempty"`
 	Stderr  string `json:"stderr,omitempty"`
 	Infra   string `json:"infra,omitempty"`
